@@ -140,6 +140,10 @@ func (j *journal) deleteDirty(addr ethcmn.Address) {
 
 	j.dirties = append(j.dirties[:idx], j.dirties[idx+1:]...)
 	delete(j.addressToJournalIndex, addr)
+	// the entries behind the removed one moved down by one: keep the index map in step
+	for i := idx; i < len(j.dirties); i++ {
+		j.addressToJournalIndex[j.dirties[i].address] = i
+	}
 }
 
 type (
@@ -251,7 +255,8 @@ func (ch suicideChange) revert(s *CommitStateDB) {
 	so := s.getStateObject(*ch.account)
 	if so != nil {
 		so.suicided = ch.prev
-		so.SetBalance(ch.prevBalance)
+		// undo without journalling: SetBalance would append a new entry while reverting
+		so.account.SetBalance(ch.prevBalance)
 	}
 }
 
@@ -267,7 +272,8 @@ func (ch touchChange) dirtied() *ethcmn.Address {
 }
 
 func (ch balanceChange) revert(s *CommitStateDB) {
-	s.getStateObject(*ch.account).SetBalance(ch.prev)
+	// undo without journalling: SetBalance would append a new entry while reverting
+	s.getStateObject(*ch.account).account.SetBalance(ch.prev)
 }
 
 func (ch balanceChange) dirtied() *ethcmn.Address {
